@@ -467,6 +467,10 @@ func driver(args []string) int {
 			break
 		}
 		name := fmt.Sprintf("%s-%s-%016x.json", p.ID, tier, core.HashStr(0, v.Key()))
+		if runtime.GOARCH != "amd64" {
+			v.Arch = runtime.GOARCH
+			name = fmt.Sprintf("%s-%s-%s-%016x.json", p.ID, tier, runtime.GOARCH, core.HashStr(0, v.Key()))
+		}
 		path := filepath.Join(artDir, name)
 		d, _ := json.MarshalIndent(v, "", " ")
 		_ = os.WriteFile(path, d, 0o644)
@@ -524,10 +528,27 @@ func driver(args []string) int {
 		"notes":              m.notes,
 		"verdict":            verdict(len(outV), len(inconcl)),
 	}
-	_ = os.MkdirAll(filepath.Join(outRoot, "evidence"), 0o755)
-	d, _ := json.MarshalIndent(ev, "", " ")
-	if err := os.WriteFile(filepath.Join(outRoot, "evidence", p.ID+".json"), d, 0o644); err != nil {
-		fmt.Fprintln(os.Stderr, "evidence:", err)
+	side := os.Getenv("VERIF_SIDE") == "1"
+	if side {
+		// a run of the same check on another platform (32-bit build): its summary is handed to
+		// the main run, which records it in the evidence file
+		sd, _ := json.Marshal(map[string]interface{}{"goarch": runtime.GOARCH, "tier": tier, "evaluations": m.evals, "distinct_nontrivial": distinct,
+			"units_run": m.units, "violations": len(outV), "inconclusive": inconcl, "verdict": verdict(len(outV), len(inconcl))})
+		_ = os.WriteFile(filepath.Join(work, "side.json"), sd, 0o644)
+	} else {
+		if sj := os.Getenv("VERIF_SIDE_JSON"); sj != "" {
+			if sd, err := os.ReadFile(sj); err == nil {
+				var x interface{}
+				if json.Unmarshal(sd, &x) == nil {
+					cov["other_platforms"] = []interface{}{x}
+				}
+			}
+		}
+		_ = os.MkdirAll(filepath.Join(outRoot, "evidence"), 0o755)
+		d, _ := json.MarshalIndent(ev, "", " ")
+		if err := os.WriteFile(filepath.Join(outRoot, "evidence", p.ID+".json"), d, 0o644); err != nil {
+			fmt.Fprintln(os.Stderr, "evidence:", err)
+		}
 	}
 
 	for _, l := range lines {
@@ -538,6 +559,9 @@ func driver(args []string) int {
 			s = s[:1500] + "…"
 		}
 		fmt.Println("INCONCLUSIVE:", s)
+	}
+	if runtime.GOARCH != "amd64" {
+		fmt.Printf("[GOARCH=%s] ", runtime.GOARCH)
 	}
 	fmt.Printf("%s %s seed=%d: evaluations=%d distinct_nontrivial=%d units=%d/%d violations=%d known=%d wall=%.1fs verdict=%s\n",
 		p.ID, tier, seed, m.evals, distinct, m.units, len(units), len(outV), len(knownHit), time.Since(start).Seconds(), verdict(len(outV), len(inconcl)))
